@@ -109,7 +109,11 @@ impl Report {
     pub fn violate(&mut self, v: Violation) {
         // keep at most a few per signature
         let n = self.violations.iter().filter(|x| x.sig == v.sig).count();
-        if n < 2 && self.violations.len() < 2000 {
+        let own = OWN_PROP.get().map(|s| s.as_str()).unwrap_or("");
+        let foreign = !own.is_empty() && v.prop != own;
+        if foreign && self.violations.iter().filter(|x| x.prop != own).count() >= 40 {
+            self.count("violations_of_other_properties_not_stored", 1);
+        } else if n < 2 && self.violations.len() < 2000 {
             self.violations.push(v);
         } else {
             self.count("violations_not_stored", 1);
@@ -143,6 +147,9 @@ impl Report {
     }
 }
 
+/// The property this process is deciding (set once by `main`).
+pub static OWN_PROP: std::sync::OnceLock<String> = std::sync::OnceLock::new();
+
 /// Run `n` independent work items on `threads` workers. Each item gets its index.
 pub fn parallel<F>(threads: usize, n: usize, f: F) -> Report
 where
@@ -164,7 +171,9 @@ where
                         break;
                     }
                     f(i, &mut local);
-                    if local.violations.len() >= 24 {
+                    // (violations of other properties seen on the way do not end the run)
+                    let own = OWN_PROP.get().map(|s| s.as_str()).unwrap_or("");
+                    if local.violations.iter().filter(|v| own.is_empty() || v.prop == own).count() >= 24 {
                         stop.store(1, Ordering::Relaxed);
                     }
                 }
